@@ -29,6 +29,9 @@ func Debug(ctx *Ctx, what string) {
 		if in > 0 {
 			cell.Intr, cell.IntrIdx = m.IntrVals[in-1], in
 		}
+		if dv, err := strconv.Atoi(os.Getenv("DEC")); err == nil {
+			cell.Dec = dv
+		}
 		r := m.Run(cell)
 		fmt.Println("cell", cell, "returned", r.Returned, "ret", absint.ValKey(r.Ret), "steps", r.Steps, "dispatched", r.Dispatched)
 		fmt.Println("imprec:", r.Imprec)
